@@ -103,7 +103,7 @@ static void check_input(Ctx& cx, const GpInput& in, bool verbose = false, int on
                 rep.add("lib_calls");
                 Paths cu = canon_closed(u.closed);
                 Paths want = canon_closed(rs ? reversed(o.closed) : o.closed);
-                if (cu != want) why = "union_not_idempotent: Union(solution,NonZero)=" + pstr(u.closed);
+                if (cu != want) why = union_tag(o.closed) + ": Union(solution,NonZero)=" + pstr(u.closed);
               }
               rep.add("wellformed_checks");
               if (verbose) printf("   C03: %s\n", why.empty() ? "ok" : why.c_str());
